@@ -75,6 +75,17 @@ def identity_guard(node, F):
     test = resolve_local(node.ast, F, fr)
     inner, pol = strip_not(test)
     inner = resolve_local(inner, F, fr)
+    if isinstance(inner, ast.Call):
+        # a predicate helper whose body is `return <identity expression>`
+        tgt = F.b.resolve_call(inner, fr)
+        if tgt is not None and not tgt.func.is_generator:
+            rets = [x for x in ast.walk(tgt.func.node)
+                    if isinstance(x, ast.Return)]
+            if len(rets) == 1 and rets[0].value is not None:
+                fr = F.b.make_frame(inner, tgt, fr)
+                inner2, pol2 = strip_not(resolve_local(rets[0].value, F, fr))
+                inner = resolve_local(inner2, F, fr)
+                pol = pol if pol2 else (not pol)
     if isinstance(inner, ast.BoolOp) and isinstance(inner.op, ast.Or):
         # capability idiom: every operand but one is `<x> is None`
         ident = [v for v in inner.values if _identity_same(v, F, fr)
